@@ -178,45 +178,48 @@ fn exhaustive(len: usize, out: &mut Vec<Vec<T>>) {
 const LEAVES: [&str; 4] = ["a", "b", "c", "d"];
 
 /// random well-formed token sequence (expression grammar with random redundant/needed parentheses)
-fn gen_exp(r: &mut Rng, depth: u32, out: &mut Vec<T>) {
-    if depth == 0 || r.chance(1, 4) { return gen_leaf(r, depth, out); }
+pub struct GenCfg { pub calls: bool, pub odd_words: bool, pub bools: bool }
+pub const FULL: GenCfg = GenCfg { calls: true, odd_words: true, bools: true };
+
+pub fn gen_exp(r: &mut Rng, g: &GenCfg, depth: u32, out: &mut Vec<T>) {
+    if depth == 0 || r.chance(1, 4) { return gen_leaf(r, g, depth, out); }
     match r.below(10) {
         0..=6 => {
-            gen_operand(r, depth - 1, out);
+            gen_operand(r, g, depth - 1, out);
             let n = 1 + r.below(3);
             for _ in 0..n {
                 out.push(bin_tok(syntax::BIN_SPELLINGS[r.below(13)].0));
-                gen_operand(r, depth - 1, out);
+                gen_operand(r, g, depth - 1, out);
             }
         }
-        7 | 8 => gen_operand(r, depth, out),
-        _ => gen_leaf(r, depth, out),
+        7 | 8 => gen_operand(r, g, depth, out),
+        _ => gen_leaf(r, g, depth, out),
     }
 }
-fn gen_operand(r: &mut Rng, depth: u32, out: &mut Vec<T>) {
+fn gen_operand(r: &mut Rng, g: &GenCfg, depth: u32, out: &mut Vec<T>) {
     if r.chance(1, 5) { out.push(bin_tok(*r.pick(&["-", "not", "!"]))); }
     if depth > 0 && r.chance(1, 3) {
         out.push(T::LPar);
-        gen_exp(r, depth - 1, out);
+        gen_exp(r, g, depth - 1, out);
         out.push(T::RPar);
     } else {
-        gen_leaf(r, depth, out);
+        gen_leaf(r, g, depth, out);
     }
 }
-fn gen_leaf(r: &mut Rng, depth: u32, out: &mut Vec<T>) {
+fn gen_leaf(r: &mut Rng, g: &GenCfg, depth: u32, out: &mut Vec<T>) {
     match r.below(16) {
         0..=5 => out.push(w(*r.pick(&["x", "y", "z", "w"]))),
         6 | 7 => out.push(int(*r.pick(&["0", "1", "2", "3", "10"]))),
         8 => out.push(T::Float(r.pick(&["2.5", "0.25", "1.0", "3.75", "0.1", "2.50"]).to_string())),
-        9 => out.push(w(*r.pick(&["true", "false"]))),
-        10 => out.push(w(*r.pick(&["android", "order", "nothing", "iffy", "xor1", "implies2", "mins", "format", "$x", "_u", "inx", "ast", "lets", "And", "NOT"]))),
+        9 if g.bools => out.push(w(*r.pick(&["true", "false"]))),
+        10 if g.odd_words => out.push(w(*r.pick(&["android", "order", "nothing", "iffy", "xor1", "implies2", "mins", "format", "$x", "_u", "inx", "ast", "lets", "And", "NOT"]))),
         11 | 12 => {
             // implicit multiplication: (number | parenthesis)+ variable?
             let n = 1 + r.below(3);
             for _ in 0..n {
                 if depth > 0 && r.chance(1, 2) {
                     out.push(T::LPar);
-                    gen_exp(r, depth - 1, out);
+                    gen_exp(r, g, depth - 1, out);
                     out.push(T::RPar);
                 } else if r.chance(1, 4) {
                     out.push(T::Float(r.pick(&["2.5", "0.5"]).to_string()));
@@ -224,15 +227,15 @@ fn gen_leaf(r: &mut Rng, depth: u32, out: &mut Vec<T>) {
                     out.push(int(*r.pick(&["2", "3", "4"])));
                 }
             }
-            if n == 1 || r.chance(1, 2) { out.push(w(*r.pick(&["x", "y", "z", "$x", "truex", "android"]))); }
+            if n == 1 || r.chance(1, 2) { out.push(w(*r.pick(if g.odd_words { &["x", "y", "z", "$x", "truex", "android"][..] } else { &["x", "y", "z"][..] }))); }
         }
-        13 if depth > 0 => {
+        13 if depth > 0 && g.calls => {
             out.push(w(*r.pick(&["f", "g", "and", "min", "len", "truex"])));
             out.push(T::LPar);
             let n = r.below(3);
             for i in 0..n {
                 if i > 0 { out.push(T::Comma); }
-                gen_exp(r, depth - 1, out);
+                gen_exp(r, g, depth - 1, out);
             }
             out.push(T::RPar);
         }
@@ -374,7 +377,7 @@ pub fn generate(seed: u64, n: usize, thorough: bool, corpus: Option<&str>) -> Ve
         guard += 1;
         let mut t = vec![];
         let depth = 1 + r.below(4) as u32;
-        gen_exp(&mut r, depth, &mut t);
+        gen_exp(&mut r, &FULL, depth, &mut t);
         if t.len() > 25 || !syntax::in_domain(&t) { continue; }
         let before = cases.len();
         push(one(&t, 0, &mut r, "random-wellformed"), &mut cases);
